@@ -18,7 +18,7 @@ from ..netlist import Harness
 from ..hw import explore_hw, aggregate, rederive
 from ..common import run_configs, finish
 from ..gen.muxlayouts import make_map
-from .muxcommon import MuxObserver
+from .muxcommon import MuxObserver, compact_tokens
 
 PID = "C06"
 
@@ -168,10 +168,12 @@ class RouteObserver:
 
 class ReadObs(MuxObserver):
     side = "r"
+    tokens = staticmethod(compact_tokens)      # (which chunk of a register is which is C04's subject)
 
 
 class WriteObs(MuxObserver):
     side = "w"
+    tokens = staticmethod(compact_tokens)
 
 
 def _only(side):
